@@ -109,6 +109,15 @@ def _tla_file(f):
             f'vals |-> {_tla_vals(f["vals"])}, uses |-> {_tla_uses(f["uses"])}]')
 
 
+def mc_impl(tier, seed, mod, prefix_sep=True):
+    """the implementation-level algorithm (ResolveImpl.tla) against the property level, on the same forests"""
+    text, cfg, sizes = mc(tier, seed, mod, emit=False)
+    text = text.replace('MODULE MCResolve', 'MODULE MCResolveImpl').replace('EXTENDS Resolve', 'EXTENDS ResolveImpl')
+    cfg = cfg.replace('INIT Init', f'  PrefixSep = {"TRUE" if prefix_sep else "FALSE"}\nINIT Init')
+    cfg = cfg[:cfg.index('INIT Init')] + 'INIT InitI\nNEXT NextI\nINVARIANT ImplConforms\nINVARIANT MountsConform\n'
+    return text, cfg, sizes
+
+
 def mc(tier, seed, mod, emit=True):
     m = menus(tier)
     defs = {
@@ -377,6 +386,19 @@ def run(ctx, cats):
     cases = res.by_tag('R')
     if not cases:
         raise MachineryError('Resolve produced no cases')
+    # implementation level: the algorithm of Chain._prepare (ResolveImpl.tla) against the property level, same forests
+    ti, ci, _ = mc_impl(ctx.tier, ctx.seed, mod)
+    ri = run_tlc('MCResolveImpl', cfg_text=ci, extra_files={'MCResolveImpl.tla': ti}, workers=16, timeout=6000, deadlock=False)
+    account(ctx, ri, 'ResolveImpl = Resolve on the same forests (the stages of Chain._prepare transcribed on name texts): '
+                     'ImplConforms, MountsConform')
+    td, cd, _ = mc_impl(ctx.tier, 0, 61, prefix_sep=False)
+    rd = run_tlc('MCResolveImpl', cfg_text=cd, extra_files={'MCResolveImpl.tla': td}, workers=16, timeout=3000, deadlock=False,
+                 expect_ok=False)
+    ctx.tlc_runs.append({'run': "ResolveImpl with the prefix test of the pinned 1.4.0 code (startswith(namespace) without "
+                                "'::') against the property (counterexample expected: defect D3, repaired)",
+                         'violated': rd.invariant_violated})
+    if rd.invariant_violated != 'ImplConforms':
+        raise MachineryError('ResolveImpl with the pinned prefix test was expected to violate ImplConforms (vacuity guard)')
     global _CASES
     _CASES = cases
     _SEED[0] = ctx.seed
